@@ -21,6 +21,12 @@ def S(name, run, quick=None, thorough=None, shards=(1, 16), race=False, tiers=("
     return st
 
 
+def FG(test, secs=90):
+    """Thorough only: Go's coverage-guided fuzzer drives the rapid generators of <test> (props/fuzzgen_test.go)."""
+    return S("fuzz-gen-" + test, "^$", tiers=("thorough",), shards=(1, 1), timeout=("10m", "30m"), env={"VERIF_FUZZ_TEST": test},
+             fuzz={"target": "^FuzzGen$", "time": {"quick": "10s", "thorough": "%ds" % secs}})
+
+
 STAGES = {
     "C07": [S("regress", "^TestC07Regress$"),
             S("lag", "^TestC07Lag$"),
@@ -82,6 +88,13 @@ STAGES = {
     "C20": [S("lag", "^TestC20Lag$", shards=(6, 6)),
             S("histories", "^TestC20$", quick=120, thorough=1500, shards=(6, 16), shrinktime="90s")],
 }
+
+for _pid, _tests in {"C01": ["TestC01"], "C02": ["TestC02"], "C03": ["TestC03", "TestC03Raw"], "C04": ["TestC04"], "C06": ["TestC06Mixed"], "C08": ["TestC08"],
+                     "C09": ["TestC09Mixed"], "C10": ["TestC10"], "C11": ["TestC11"], "C12": ["TestC12"], "C13": ["TestC13", "TestC13Silent"],
+                     "C14": ["TestC14ServerLists", "TestC14Interleaved"], "C15": ["TestC15", "TestC15Inbound"], "C16": ["TestC16"],
+                     "C18": ["TestC18", "TestC18Deadlines"], "C19": ["TestC19", "TestC19Write"], "C20": ["TestC20"]}.items():
+    for _t in _tests:
+        STAGES[_pid].append(FG(_t))
 
 LEVELS = {
     "C01": "exploration", "C02": "exploration", "C03": "exploration", "C04": "fault_enumeration",
